@@ -360,4 +360,10 @@ def contractL (nL nR : Nat) (ops : List (Op α)) : Bool :=
     && loopOk nR 0 0 false false (sentBatches false ops)
 
 
+/-- the input contract of a history for `nL` / `nR` replicas with the RIGHT side cached (the mirror image:
+    the right side sends one iteration and terminates, the left side is the loop side) -/
+def contractR (nL nR : Nat) (ops : List (Op α)) : Bool :=
+  decide (0 < nL) && decide (0 < nR) && cachedOk nR 0 0 (sentBatches false ops)
+    && loopOk nL 0 0 false false (sentBatches true ops)
+
 end Noir.BinaryStart
